@@ -396,6 +396,7 @@ def check(tier):
         runner.report_divergences(chk, divs, "comparison-layer correspondence (ZI.Order.methodC / methodPy vs IB_richcompare / NameAndModuleComparisonMixin); theorem ZI.Order.C12_twin",
                                   "statement oracle accepted all %d judged answers" % chk.counters.get("answers_judged", 0))
         core.lean_failure_violation(chk)
+    core.source_obligation_violation(chk, core.source_obligations(chk, ["mixinCompare_src_eq"]), fails)
     chk.samples.append(scripts[0][:12] + scripts[0][-3:])
     chk.counters["hash_seeds"] = SEEDS
     return chk.finish(len(lines) * len(outs), chk.counters.get("pairs_name_and_module_order_disagree", 0),
